@@ -1,5 +1,6 @@
 """C10 - IPv4 fragmentation produces a faithful partition of the datagram."""
 from vf.parts import kani_part
+from vf.mirxparts import frag_content_part
 
 EXPLANATION = ('Kani: the real fragment() on an arbitrary datagram-or-fragment with symbolic MTU/length/offset/flags, payload abstracted to its length; '
                'payload content placement is the mirx part (when present).')
@@ -20,15 +21,17 @@ def run(ctx):
         assumptions=['length-only Message {chunks: [], len}: the real Message::cut runs on it; justified because fragment() never reads payload bytes',
                      'incoming fragment satisfies offset + payload/8 <= 8191 (it belongs to a representable datagram)'],
         jobs=8, timeout=1500 if ctx.quick else 3000)
+    yield frag_content_part(ctx)
 
 
 MANIFEST = {
-    'engine': 'kani',
-    'technique': 'bounded model checking (Kani/CBMC, SAT) of the real fragment() with symbolic MTU, lengths, offsets and flags',
+    'engine': 'kani + mirx',
+    'technique': 'Kani/CBMC (SAT) on the real fragment() with symbolic MTU, lengths, offsets and flags; mirx symbolic execution of the same function with the payload as a provenance extent (z3)',
     'level_text': 'For every MTU >= 68, every total length, every incoming offset/MF/DF and header, with at most 6 pieces per application, SAT decides: pass-through '
                   'when it fits, discard when DF forbids, otherwise pieces that fit the MTU, are 8-byte aligned, consecutive from the incoming offset, sum to the '
                   'payload, keep MF on all but the piece ending the input (which keeps the incoming MF), and preserve all other header fields; plus an explicit '
                   'two-MTU chain relative to the original datagram.',
-    'level_note': 'Payload abstracted to its length (sound because fragment() never inspects bytes); content placement of the pieces is decided by the mirx '
-                  'part when present. Trusts Kani/CBMC.',
+    'level_note': 'Kani part: payload abstracted to its length (sound because fragment() never inspects bytes). mirx part: payload is one provenance extent and z3 decides that piece i '
+                  'carries exactly bytes [8*(off_i - off_in), +len_i) of the input, consecutive and complete, for symbolic MTU/length/offset (<= 3/5 pieces). Trusts Kani/CBMC, mirx, z3; '
+                  'violations replayed natively.',
 }
